@@ -115,9 +115,10 @@ impl<const LIMBS: usize> Uint<LIMBS> {
             let new_lower = lower
                 .overflowing_shl_vartime(shift)
                 .expect("shift within range");
+            // `shift == 0` makes this a shift by `BITS`, which contributes nothing
             let upper_lo = lower
                 .overflowing_shr_vartime(Self::BITS - shift)
-                .expect("shift within range");
+                .unwrap_or(Self::ZERO);
             let upper_hi = upper
                 .overflowing_shl_vartime(shift)
                 .expect("shift within range");
